@@ -34,6 +34,7 @@ const (
 	evClientRecv   = 15
 	evClientClosed = 16
 	evDefLog       = 17
+	evReServe      = 18
 )
 
 type lcEvent struct {
